@@ -2,12 +2,14 @@ package main
 
 import (
 	"fmt"
+	"go/ast"
 	"go/constant"
 	"go/token"
 	"go/types"
 	"strings"
 
 	"golang.org/x/tools/go/ssa"
+	"golang.org/x/tools/go/types/typeutil"
 )
 
 const (
@@ -533,7 +535,10 @@ func isCoIter(t types.Type) bool {
 	return o.Pkg() != nil && o.Pkg().Path() == coPath && o.Name() == "Iter"
 }
 
-// isGenerator: result type is co.Iter[T] and the function's own body calls Yield/YieldFrom.
+// isGenerator: result type is co.Iter[T] and the function's own body (nested literals excluded,
+// unreachable statements included) contains a call of Yield/YieldFrom. Decided on the syntax tree
+// with types.Info, like the property text says ("functions that call Yield"), and independently
+// of the rewriter's collectYieldFunc.
 func (m *Machine) isGenerator(fn *ssa.Function) bool {
 	if r, ok := m.genCache[fn]; ok {
 		return r
@@ -541,26 +546,42 @@ func (m *Machine) isGenerator(fn *ssa.Function) bool {
 	res := false
 	sig := fn.Signature
 	if sig.Results().Len() == 1 && isCoIter(sig.Results().At(0).Type()) && fn.Blocks != nil {
-	outer:
-		for _, b := range fn.Blocks {
-			for _, in := range b.Instrs {
-				ci, ok := in.(ssa.CallInstruction)
-				if !ok {
-					continue
-				}
-				if callee := ci.Common().StaticCallee(); callee != nil {
-					switch fnKey(callee) {
-					case coPath + ".Yield", coPath + ".YieldFrom":
+		o := fn
+		if fn.Origin() != nil {
+			o = fn.Origin()
+		}
+		var body *ast.BlockStmt
+		switch n := o.Syntax().(type) {
+		case *ast.FuncDecl:
+			body = n.Body
+		case *ast.FuncLit:
+			body = n.Body
+		}
+		var info *types.Info
+		if o.Pkg != nil {
+			info = typeInfos[o.Pkg.Pkg]
+		}
+		if body != nil && info != nil {
+			ast.Inspect(body, func(n ast.Node) bool {
+				switch x := n.(type) {
+				case *ast.FuncLit:
+					return false
+				case *ast.CallExpr:
+					if f, ok := typeutil.Callee(info, x).(*types.Func); ok && f.Pkg() != nil && f.Pkg().Path() == coPath &&
+						(f.Name() == "Yield" || f.Name() == "YieldFrom") {
 						res = true
-						break outer
 					}
 				}
-			}
+				return !res
+			})
 		}
 	}
 	m.genCache[fn] = res
 	return res
 }
+
+// typeInfos maps a type-checked package to its types.Info (filled by the loader).
+var typeInfos = map[*types.Package]*types.Info{}
 
 // ---------------------------------------------------------------------------------------------
 // coroutine plumbing (reference semantics)
